@@ -621,8 +621,24 @@ namespace bloch::compiler {
             int distance = inheritanceDistance(actual.className, expected.className);
             if (distance >= 0)
                 return distance;
+            return std::nullopt;
         }
 
+        // Generic instantiations: walk up from the actual type as isAssignableType does,
+        // substituting each class's type arguments into the base type it names; the number of
+        // steps to the expected instantiation is the cost.
+        TypeInfo cur = actual;
+        for (int depth = 0; depth < 64; ++depth) {
+            if (cur.className == expected.className)
+                return typeEquals(expected, cur) ? std::optional<int>(depth) : std::nullopt;
+            const ClassInfo* info = findClass(cur.className);
+            if (!info || info->base.empty())
+                return std::nullopt;
+            if (!info->baseType.className.empty())
+                cur = substituteTypeParams(info->baseType, info->typeParams, cur.typeArgs);
+            else
+                cur = combine(ValueType::Unknown, info->base);
+        }
         return std::nullopt;
     }
 
